@@ -4,6 +4,7 @@ import RbV.Model.AvlProofs
 import RbV.Model.AMapProofs
 import RbV.Model.IitIndex
 import RbV.Model.DumpProofs
+import RbV.Thm.GenSrcIit
 /-!
 # C07 — interval trees and the annotation map report exactly the overlapping entries; the AVL tree stays balanced
 
@@ -248,5 +249,44 @@ example :
 open RbV.Iit in
 example : endsIndexed [AOp.ins ⟨1, 2, 0⟩, .index, .ins ⟨0, 9, 1⟩] false = false ∧
     endsIndexed [AOp.ins ⟨1, 2, 0⟩, .index, .ins ⟨0, 9, 1⟩, .index] false = true := by decide
+
+/-! ## The source text of `index_core` (translated on every run, `Gen/SrcIit.lean`)
+
+`tools/rs2lean.py` translates `ArrayBackedIntervalTree::index_core` (the `for_each` over the even cells, the
+`while (1 << k) <= n` loop with its inner `step_by` loop, `last_i` / `last_value`); `N` is read at `Int`, an
+`InternalEntry` is the tuple `(data, (start, end), max)`, `GenSrcIit.cells` maps a vector of them to the model's cells. -/
+
+open RbV.Iit in
+/-- **`index_core` as written in the source = the mirror model**: for fewer than `2^62` entries the translated function
+never panics (no index out of range, no shift or addition overflows, the `while` loop ends within its fuel) and computes
+exactly the model's cells and `max_level` -/
+theorem iit_index_source_eq_model (es : List GenSrcIit.RCell) (ml : Nat) (hn : es.length < 2 ^ 62) :
+    ∃ es', Gen.SrcIit.indexCore Iit.max3 es ml = Rs.Res.ok (es', (indexCore (GenSrcIit.cells es) ml).2) ∧
+      GenSrcIit.cells es' = (indexCore (GenSrcIit.cells es) ml).1 :=
+  GenSrcIit.indexCore_eq_model es ml hn
+
+open RbV.Iit in
+/-- … hence the *translated* `index_core`, run on entries sorted by start, leaves every entry in place and establishes
+what the search needs (`iit_find_correct`): sortedness, `max` = an upper bound of the ends in every implicit subtree,
+`n < 2^(max_level+1)` — for every `n < 2^62`, power of two or not -/
+theorem iit_index_source_establishes (es : List GenSrcIit.RCell) (ml : Nat) (hn : es.length < 2 ^ 62)
+    (hs : SortedC (GenSrcIit.cells es)) :
+    ∃ es' ml', Gen.SrcIit.indexCore Iit.max3 es ml = Rs.Res.ok (es', ml') ∧
+      (GenSrcIit.cells es').map (·.e) = (GenSrcIit.cells es).map (·.e) ∧ SortedC (GenSrcIit.cells es') ∧
+      MaxUB (GenSrcIit.cells es') ∧ es'.length < 2 ^ (ml' + 1) := by
+  obtain ⟨es', h1, h2⟩ := iit_index_source_eq_model es ml hn
+  obtain ⟨g1, g2, g3, g4⟩ := iit_index_establishes (GenSrcIit.cells es) ml hs
+  refine ⟨es', _, h1, ?_, ?_, ?_, ?_⟩
+  · rw [h2]; exact g1
+  · rw [h2]; exact g2
+  · rw [h2]; exact g3
+  · have : es'.length = (GenSrcIit.cells es').length := (GenSrcIit.length_cells es').symm
+    rw [this, h2]; exact g4
+
+-- the translated `index_core` on five cells (n not a power of two, stale `max` fields): new `max` fields and level
+example : Gen.SrcIit.indexCore Iit.max3
+    [((0 : Int), ((0 : Int), (2 : Int)), (0 : Int)), (1, (1, 3), 99), (2, (2, 3), 0), (3, (2, 4), -5), (4, (3, 50), 0)] 0
+    = Rs.Res.ok ([(0, (0, 2), 2), (1, (1, 3), 3), (2, (2, 3), 3), (3, (2, 4), 50), (4, (3, 50), 50)], 2) := by
+  decide +kernel
 
 end RbV.Thm.C07
